@@ -80,28 +80,66 @@ func (e *Engine) solveFunc(fr *FuncResult, obs []*Oblig, cfg solveCfg) error {
 	sb.WriteString(e.prelude)
 	sb.WriteString(fr.Script)
 	common := sb.String()
-	batch := common
+	// two batches run side by side: the real obligations, and the guards (covers and canaries),
+	// which are expected to be satisfiable and get a short per-query budget
+	var mainObs, guardObs []*Oblig
 	for _, o := range obs {
-		batch += "; " + o.Name + "\n" + obligQuery(o)
+		if o.Cover || o.Canary {
+			guardObs = append(guardObs, o)
+		} else {
+			mainObs = append(mainObs, o)
+		}
 	}
-	file := base + ".batch.smt2"
-	if err := os.WriteFile(file, []byte(batch), 0o644); err != nil {
-		return err
+	runBatch := func(list []*Oblig, perQueryMs int, tag string) (map[*Oblig]string, float64, error) {
+		ans := map[*Oblig]string{}
+		if len(list) == 0 {
+			return ans, 0, nil
+		}
+		batch := common
+		for _, o := range list {
+			batch += "; " + o.Name + "\n" + obligQuery(o)
+		}
+		file := base + "." + tag + ".smt2"
+		if err := os.WriteFile(file, []byte(batch), 0o644); err != nil {
+			return nil, 0, err
+		}
+		out, secs := runSolver(Solver{"z3-5.1.0", "z3-new", func(t int) []string {
+			return []string{fmt.Sprintf("-t:%d", perQueryMs), fmt.Sprintf("-T:%d", t), "-smt2"}
+		}}, file, perQueryMs*len(list)/1000+10)
+		answers, errs := parseAnswers(out)
+		if len(errs) > 0 {
+			return nil, 0, fmt.Errorf("solver error on %s: %s", file, strings.Join(errs, "; "))
+		}
+		for i, o := range list {
+			a := "unknown"
+			if i < len(answers) {
+				a = answers[i]
+			}
+			ans[o] = a
+		}
+		return ans, secs / float64(len(list)), nil
 	}
-	// the batch gets a budget proportional to its size but per-query soft timeouts inside z3
-	out, secs := runSolver(Solver{"z3-5.1.0", "z3-new", func(t int) []string {
-		return []string{fmt.Sprintf("-t:%d", cfg.timeoutSec*1000), fmt.Sprintf("-T:%d", t), "-smt2"}
-	}}, file, cfg.timeoutSec*len(obs)+10)
-	answers, errs := parseAnswers(out)
-	if len(errs) > 0 {
-		return fmt.Errorf("solver error on %s: %s", file, strings.Join(errs, "; "))
+	var gAns map[*Oblig]string
+	var gPer float64
+	var gErr error
+	gdone := make(chan struct{})
+	go func() {
+		gAns, gPer, gErr = runBatch(guardObs, 2000, "guards")
+		close(gdone)
+	}()
+	mAns, mPer, mErr := runBatch(mainObs, cfg.timeoutSec*1000, "batch")
+	<-gdone
+	if mErr != nil {
+		return mErr
 	}
-	per := secs / float64(len(obs))
+	if gErr != nil {
+		return gErr
+	}
 	var rest []*Oblig
-	for i, o := range obs {
-		a := "unknown"
-		if i < len(answers) {
-			a = answers[i]
+	for _, o := range obs {
+		a, per := mAns[o], mPer
+		if o.Cover || o.Canary {
+			a, per = gAns[o], gPer
 		}
 		o.Seconds = per
 		o.Solver = "z3-5.1.0"
